@@ -8,6 +8,7 @@ import Hive.Proofs.DerivedVar
 import Hive.Proofs.DerivedAsync
 import Hive.Proofs.DerivedEvict
 import Hive.Proofs.DerivedEvictLoop
+import Hive.Proofs.DerivedVarSeq
 import Hive.Proofs.DerivedSortedWin
 import Hive.Spec.Derived
 import Hive.Gen.C14_Skel
@@ -77,6 +78,27 @@ theorem C14_counter_old_unsubscribe_witness :
     let s := (((CT.init (fun v => v != 0)).run [.monitor 0, .set 0 1]).stepOldUnmonitor 0)
     s.counter = 1 ∧ s.expected = 0 := by
   decide
+
+/-! ## DerivedVariable, call by call: inputs with values, initial value, `Unsubscribe`, `DeriveValueFrom` -/
+
+/-- **A DerivedVariable equals `compute` of its inputs as they were when it was unsubscribed — of the current inputs
+while it is subscribed** — whatever its initial value and the inputs' values at creation were, for every history of
+writes to the inputs, `Unsubscribe` calls (any number) and `DeriveValueFrom`; the variable that derives its value from
+it holds the same value. -/
+theorem C14_derived_var_unsubscribe (fn : List Int → Int) (init : Int) (vals : List Int) (hv : vals ≠ []) (ops : List DVOp) :
+    let s := (DV.create fn init vals).run ops
+    s.d = s.fn s.seen ∧ (s.subscribed = true → s.d = s.fn s.ins) ∧ (∀ t, s.target = some t → t = s.d) := by
+  have h := DV.inv_run _ ops (DV.inv_create fn init vals hv)
+  exact ⟨h.val, fun hs => by rw [h.val, h.cur hs], h.tgt⟩
+
+example : ([1, 0, 4096] : List Int) ≠ [] := by decide
+
+/-- After `Unsubscribe` no write to an input changes the derived value any more. -/
+theorem C14_derived_var_frozen (s : DV) (ops : List DVOp) : ((s.step .unsub).run ops).d = s.d :=
+  (DV.frozen_run (s.step .unsub) ops rfl).1
+
+/-- Without inputs the initial value would stay (`NewDerivedVariable` always has at least one input). -/
+example : (DV.create (fun _ => 5) 7 []).d = 7 := by decide
 
 /-! ## EvictionState -/
 
@@ -666,6 +688,43 @@ theorem C14_skeleton_sortedSet_addSorted : skel_sortedSet_addSorted = [
 /-- evictionState.EvictionEvent (eviction_state_impl.go:40) -/
 theorem C14_skeleton_evictionState_EvictionEvent : skel_evictionState_EvictionEvent = [
   "rlock e.mutex", "defer runlock e.mutex", "if{", "helper GetOrCreate", "return", "}if", "return"] := by decide
+
+/-- derivedVariable.Unsubscribe (variable_impl.go:326): through `sync.Once` (what makes a second call harmless). -/
+theorem C14_skeleton_derivedVariable_Unsubscribe : skel_derivedVariable_Unsubscribe = [
+  "call d.unsubscribeOnce.Do"] := by decide
+
+/-- variable.DeriveValueFrom (variable_impl.go:90) -/
+theorem C14_skeleton_variable_DeriveValueFrom : skel_variable_DeriveValueFrom = [
+  "helper InheritFrom", "return"] := by decide
+
+/-! ### Type facts: counter widths, admitted slot types, fields -/
+
+/-- The pending counter is 32 bits wide (the size scenarios go up to 2^20 elements; `Add` of 2^31 elements is out of reach). -/
+theorem C14_skeleton_type_waitGroup : skel_type_waitGroup =
+  ["struct", "embedded Event", "pendingElements Set[T]", "pendingElementsCounter atomic.Int32"] := by decide
+
+theorem C14_skeleton_type_evictionState : skel_type_evictionState =
+  ["struct", "mutex sync.RWMutex", "lastEvictedSlot *Type", "evictionEvents *shrinkingmap.ShrinkingMap[Type,Event]"] := by decide
+
+/-- Occurrence counts are platform ints. -/
+theorem C14_skeleton_type_setArithmetic : skel_type_setArithmetic =
+  ["struct", "embedded *shrinkingmap.ShrinkingMap[ElementType,int]"] := by decide
+
+theorem C14_skeleton_type_derivedVariable : skel_type_derivedVariable =
+  ["struct", "embedded Variable[ValueType]", "unsubscribe func()", "unsubscribeOnce sync.Once"] := by decide
+
+theorem C14_skeleton_type_counter : skel_type_counter =
+  ["struct", "embedded Variable[int]", "condition func(inputValueInputType)bool"] := by decide
+
+/-- The slot types `evTop` (Model/DerivedCounter.lean) and the harness (`evTypes`) enumerate. -/
+theorem C14_skeleton_type_EvictionStateSlotType : skel_type_EvictionStateSlotType =
+  ["interface{~int|~int8|~int16|~int32|~int64|~uint|~uint8|~uint16|~uint32|~uint64|~uintptr|~float32|~float64}"] := by decide
+
+theorem C14_skeleton_type_sortedSetElement : skel_type_sortedSetElement =
+  ["struct", "element ElementType", "weight WeightType", "index int", "unsubscribeFromWeightUpdates func()"] := by decide
+
+theorem C14_skeleton_type_derivedSet : skel_type_derivedSet =
+  ["struct", "embedded *set[ElementType]", "setArithmetic ds.SetArithmetic[ElementType]"] := by decide
 
 
 end Skeletons
